@@ -392,6 +392,14 @@ pub fn c17_case_calls(ae: &Option<String>, level: u32, chunk: usize, method: &st
     if method == "HEAD" {
         if x.w.is_some() {
             fs.push(Finding { props: vec!["C15", "C17"], key: "head-writer".into(), msg: "streaming_body returned a writer for HEAD".into() });
+        } else {
+            // the HEAD response's body is empty: it ends at once, without a byte
+            let hz = x.frame_horizon();
+            x.term = crate::stream_mc::Term::WriterDropped;
+            x.poll_until_pending(hz);
+            if !x.delivered.is_empty() || !matches!(x.terminal_seen, Some(Obs::End)) {
+                fs.push(Finding { props: vec!["C15"], key: "head-body-not-empty".into(), msg: format!("streaming_body for HEAD: the body delivered {} byte(s), terminal event {:?}", x.delivered.len(), x.terminal_seen.as_ref().map(|o| o.kind())) });
+            }
         }
         summary = format!("HEAD/{}", if says_gzip { "gzip" } else { "identity" });
     } else {
@@ -467,7 +475,7 @@ pub fn run_c17(run: &mut Run) -> Stats {
     let tier = run.tier;
     let values = c17_values(tier);
     let prop = run.prop.clone();
-    run.rule = "Accept-Encoding values {absent, empty, every C16 list of <= 2 elements, 20 hand-picked 3-element / malformed values} x gzip level 0..9 x chunk size {1, 7, 4096} x methods {GET, HEAD, POST} x request given as http::Request and as http::request::Parts x writer histories {write_all(n); flush; drop for n in {0, 300}; drop only; flush, drop; write_all(300), drop; write(6), write_all(3000), write_all(7), drop; 40 x write_all(17), flush, write_all(1), drop} (the last five at levels 0, 1, 6, 9). Oracle: Vary names accept-encoding; Content-Encoding: gzip iff (independent evaluator prefers gzip) and level > 0, never another coding; body sniffed by the independent decoder: says gzip <=> exactly one gzip member of the payload, otherwise the payload verbatim; both request representations give identical headers; HEAD: same headers, no writer. non-trivial = distinct (Accept-Encoding, level, chunk, method, representation, payload)".into();
+    run.rule = "Accept-Encoding values {absent, empty, every C16 list of <= 2 elements, 20 hand-picked 3-element / malformed values} x gzip level 0..9 x chunk size {1, 7, 4096} x methods {GET, HEAD, POST} x request given as http::Request and as http::request::Parts x writer histories {write_all(n); flush; drop for n in {0, 300}; drop only; flush, drop; write_all(300), drop; write(6), write_all(3000), write_all(7), drop; 40 x write_all(17), flush, write_all(1), drop} (the last five at levels 0, 1, 6, 9). Oracle: Vary names accept-encoding; Content-Encoding: gzip iff (independent evaluator prefers gzip) and level > 0, never another coding; body sniffed by the independent decoder: says gzip <=> exactly one gzip member of the payload, otherwise the payload verbatim; both request representations give identical headers; HEAD: same headers, no writer, empty body; earlier builder calls that are overridden, and the two final builder calls in either order, must not matter. non-trivial = distinct (Accept-Encoding, level, chunk, method, representation, payload)".into();
     run.bounds = json!({"accept_encoding_values": values.len(), "levels": 10, "chunk_sizes": [1, 7, 4096], "methods": 3});
     par_for(values.len() as u64, threads(), |i, st| {
         let ae = &values[i as usize];
@@ -510,7 +518,7 @@ pub fn run_c17(run: &mut Run) -> Stats {
                         // earlier builder calls that are overridden later must not matter
                         if let Some(base) = reprs.first() {
                             if plen == 0 && (level == 0 || level == 1 || level == 6) {
-                                for pre in [vec![Some(0u32)], vec![Some(9)], vec![None, Some(0)], vec![Some(0), None, Some(3)], vec![Some(5), Some(0)]] {
+                                for pre in [vec![Some(0u32)], vec![Some(9)], vec![None, Some(0)], vec![Some(0), None, Some(3)], vec![Some(5), Some(0)], vec![Some(u32::MAX)], vec![Some(3), Some(u32::MAX)], vec![None, Some(u32::MAX)]] {
                                     order += 1;
                                     let mut fs = Vec::new();
                                     let r = c17_case_calls(ae, level, chunk, method, false, plen, &pre, &mut fs);
